@@ -496,3 +496,98 @@ def field_num(type_c):
     import re
     m = re.match(r'^(?:const )?FIX8::Field<.*, (\d+)>$', type_c)
     return int(m.group(1)) if m else None
+
+
+# --------------------------------------------------------------------------- path obligations
+def branches(fn, pred):
+    """branch blocks whose (normalised) condition atom satisfies pred(atom): [(block id, atom, pol)]
+    pol = truth value of the atom on the block's *true* edge"""
+    cfg = fn.cfg
+    out = []
+    for b, blk in cfg.blocks.items():
+        if blk.get('cond') is None or len(blk['succ']) != 2:
+            continue
+        c = cfg.cond_node(b)
+        if c is None:
+            continue
+        atom, pol = polar(c, True)
+        try:
+            if pred(atom):
+                out.append((b, atom, pol))
+        except Exception:
+            raise
+    return out
+
+
+def edge_targets(cfg, block, way):
+    return [w for (w, lab) in cfg.succ[cfg.block_last[block]] if lab == (block, way)]
+
+
+def atom_edge(cfg, branch, truth):
+    """vertices entered when the branch's atom has the given truth value"""
+    b, atom, pol = branch
+    return edge_targets(cfg, b, pol if truth else (not pol))
+
+
+def escape_path(cfg, starts, must, edge_ok=None, exit_kinds=('return', 'falloff')):
+    """a path from any start vertex to a normal exit that does NOT pass a vertex in `must`; None if
+    every such path passes one (the obligation holds)."""
+    exits = {v for (v, kind, n) in cfg.exits() if kind in exit_kinds}
+    must = set(must)
+    for s in starts:
+        if s in must:
+            continue
+        if s in exits:
+            return [s]
+        p = cfg.path(s, lambda x: x in exits, avoid=must, edge_ok=edge_ok)
+        if p is not None:
+            return [s] + p
+    return None
+
+
+def reachable_any(cfg, starts, targets, edge_ok=None):
+    targets = set(targets)
+    for s in starts:
+        if s in targets:
+            return s
+        r = cfg.reach_from(s, edge_ok=edge_ok)
+        hit = r & targets
+        if hit:
+            return sorted(hit)[0]
+    return None
+
+
+def reachable_returns(cfg, starts, edge_ok=None):
+    """ReturnStmt nodes reachable from starts"""
+    out = []
+    rets = {v: n for (v, kind, n) in cfg.exits() if kind == 'return'}
+    seen = set()
+    for s in starts:
+        r = cfg.reach_from(s, edge_ok=edge_ok) | {s}
+        for v in r:
+            if v in rets and v not in seen:
+                seen.add(v)
+                out.append(rets[v])
+    return out
+
+
+def return_value(ret):
+    ch = ret.children
+    return ch[0].strip(casts=True).value if ch else None
+
+
+def verts(cfg, nodes):
+    return {cfg.vertex_of(n) for n in nodes if cfg.has_vertex(n)}
+
+
+def reads_member(n, qp):
+    return any(x.k == 'MemberExpr' and x.decl is not None and x.decl.get('qp') == qp for x in n.walk())
+
+
+def reads_local_of_field(n, fnum):
+    """n reads a local variable whose type is FIX8::Field<_, fnum>"""
+    for x in n.walk():
+        if x.k == 'DeclRefExpr' and x.decl is not None and x.decl.get('sc') in ('local', 'param'):
+            if field_num(x.fn.tu.types[x.decl['t']]['c']) == fnum:
+                return True
+    return False
